@@ -28,7 +28,7 @@ ASSUMPTIONS = ['bit-equality is demanded only between executions of the same cod
                'paired-world numerics are compared by model name within 1e-9 (relative, floor 1e-9) and only for well-conditioned regressions '
                '(normal-matrix determinant > 1e-3 of the product of its diagonal); rankings may differ inside exact ties']
 PROBES = ['same_source_object_twice', 'both_users_same_source', 'bad_call_between', 'memmap_fitter', 'apdep', 'p1_filters_permuted',
-          'p2_models_permuted', 'p3_flux_scaled', 'ill_conditioned_skipped', 'earlier_results_rechecked', 'source_edited_in_place', 'refit_after_in_place_edit', 'mixed_named_and_wavelength_filters']
+          'p2_models_permuted', 'p3_flux_scaled', 'ill_conditioned_skipped', 'earlier_results_rechecked', 'source_edited_in_place', 'refit_after_in_place_edit', 'mixed_named_and_wavelength_filters', 'bystander_fitter_alive']
 
 
 def budgets(tier):
@@ -63,7 +63,11 @@ def generate(rng, tier, idx):
             'p3_c': float('%.4g' % (10 ** rng.uniform(-4, 4))) if rng.random() < 0.6 else None,
             # cube packages: some entries of the filter list are monochromatic wavelengths (Quantities) instead of names
             'mono': [rng.random() < 0.4 for _ in range(nf)] if w['format'] == 2 and rng.random() < 0.5 else None,
-            'mono_seed': rng.randrange(1 << 30), 'mono_unit': rng.choice(['micron', 'micron', 'Angstrom', 'mm'])}
+            'mono_seed': rng.randrange(1 << 30), 'mono_unit': rng.choice(['micron', 'micron', 'Angstrom', 'mm']),
+            # other Fitter objects alive in the same process while the shared one is used (another user's fitter on another
+            # package, or on the same package with the filters in another order), created before or after the shared one
+            'bystanders': [{'kind': rng.choice(['other_pkg', 'perm_filters']), 'when': rng.choice(['before', 'after']),
+                            'remove_resolved': rng.random() < 0.5, 'seed': rng.randrange(1 << 30)} for _ in range(rng.choice([0, 0, 1, 2]))]}
 
 
 def execute(sc):
@@ -76,6 +80,28 @@ def execute(sc):
         out.absorb_sim(sim)
         sim.cleanup()
     return out
+
+
+def _apply_edit(src, st):
+    """the user edits a Source IN PLACE, through its arrays"""
+    k = st['k'] % len(src.valid)
+    v = int(src.valid[k])
+    if st['kind'] == 'scale':
+        src.flux[:] *= st['c']
+        src.error[:] *= st['c']
+    elif st['kind'] == 'flag':
+        if v in (0, 1, 9):
+            src.valid[k] = st['flag']
+    elif st['kind'] == 'error':
+        if v in (1, 9):
+            src.error[k] *= st['c']
+    else:
+        if v in (0, 1, 9):
+            src.flux[k] *= st['c']
+
+
+def _as_dict(src, template):
+    return dict(template, valid=[int(x) for x in src.valid], flux=[float(x) for x in src.flux], error=[float(x) for x in src.error])
 
 
 def _arrays_only(info):
@@ -132,11 +158,67 @@ def _execute(sc, sim, out):
 
     def new_fitter(dd=d, nm=names, aa=ap):
         return pipe.call(pipe.Fitter, nm, aa, dd, use_memmap=sc['memmap'], remove_resolved=bool(sc.get('remove_resolved')), **pipe.fitter_kwargs(W, sc))
+    # ---- phase 0 (pristine): what a fresh Fitter returns for every content a Source will have during the history.
+    # The evolution of the contents is replayed on private copies with the same numpy operations, the reference fitter is
+    # dropped before the shared fitter and the bystanders exist, so it can neither mask nor suffer from state they share.
+    import gc
+    evo = [make_source(s0) for s0 in sc['pool']]
+    evo_ver = [0] * len(evo)
+    needed = {}
+    for st in sc['steps']:
+        if st['op'] == 'edit':
+            _apply_edit(evo[st['src']], st)
+            evo_ver[st['src']] += 1
+        elif st['op'] == 'fit':
+            needed[(st['src'], evo_ver[st['src']])] = _as_dict(evo[st['src']], sc['pool'][st['src']])
+    for i in set(k[0] for k in needed):
+        needed[(i, evo_ver[i])] = _as_dict(evo[i], sc['pool'][i])          # final content, for the paired worlds
+    rf0 = new_fitter()
+    if rf0[0] != 'ok':
+        out.discarded = 'setup-fitter:' + pipe.exc_name(rf0)
+        return
+    pre = {}
+    for key, content in sorted(needed.items()):
+        rr = pipe.call(rf0[1].fit, make_source(content))
+        if rr[0] != 'ok':
+            out.discarded = 'setup-reference-fit:' + pipe.exc_name(rr)
+            return
+        pre[key] = (canon_record(rr[1]), rr[1])
+    del rf0
+    gc.collect()
+    # ---- phase 1: bystanders and the shared fitter
+    alive = []
+
+    def make_bystander(b):
+        if b['kind'] == 'other_pkg':
+            from ..author import prelude_spec
+            Wb = World(prelude_spec(spec, random.Random(b['seed'])))
+            db = Wb.write(sim.path('bystander_pkg_%d' % len(alive)))
+            if pipe.call(pipe.convolve_model_dir, db, Wb.filters())[0] != 'ok':
+                return
+            nmb, apb = [f['name'] for f in Wb.fspec], ap
+            rb = pipe.call(pipe.Fitter, nmb, apb, db, use_memmap=sc['memmap'], remove_resolved=bool(b['remove_resolved'] and Wb.apdep),
+                           extinction_law=Wb.extinction(), av_range=list(sc['av_range']), distance_range=list(sc['drange']) * pipe.u.kpc)
+        else:
+            perm = list(range(len(names)))
+            random.Random(b['seed']).shuffle(perm)
+            rb = pipe.call(pipe.Fitter, [names[j] for j in perm], ap[perm], d, use_memmap=sc['memmap'],
+                           remove_resolved=bool(b['remove_resolved'] and W.apdep), **pipe.fitter_kwargs(W, sc))
+        if rb[0] == 'ok':
+            alive.append(rb[1])
+            out.probe('bystander_fitter_alive')
+            sim.fired('bystander_fitter')
+    for b in sc.get('bystanders', []):
+        if b['when'] == 'before':
+            make_bystander(b)
     r = new_fitter()
     if r[0] != 'ok':
         out.discarded = 'setup-fitter:' + pipe.exc_name(r)
         return
     shared = r[1]
+    for b in sc.get('bystanders', []):
+        if b['when'] == 'after':
+            make_bystander(b)
     if sc['memmap'] and spec['format'] == 2:
         out.probe('memmap_fitter')
     if W.apdep:
@@ -148,17 +230,8 @@ def _execute(sc, sim, out):
     refcache = {}
 
     def reference(i):
-        # what a fresh Fitter returns for a fresh Source holding the object's CURRENT content
-        key = (i, version[i])
-        if key not in refcache:
-            rf = new_fitter()
-            if rf[0] != 'ok':
-                return None
-            rr = pipe.call(rf[1].fit, make_source(cur[i]))
-            if rr[0] != 'ok':
-                return None
-            refcache[key] = (canon_record(rr[1]), rr[1])
-        return refcache[key]
+        # what a fresh Fitter returned (phase 0) for a fresh Source holding the object's CURRENT content
+        return pre.get((i, version[i]))
     store0 = digest(np.asarray(shared.models.fluxes.value, float).tobytes())
     seen = {}
     earlier = []
@@ -179,24 +252,8 @@ def _execute(sc, sim, out):
         if st['op'] == 'edit':
             i = st['src']
             src = pool[i]
-            k = st['k'] % len(cur[i]['valid'])
-            if st['kind'] == 'scale':
-                src.flux[:] *= st['c']
-                src.error[:] *= st['c']
-                cur[i]['flux'] = [float(x) for x in src.flux]
-                cur[i]['error'] = [float(x) for x in src.error]
-            elif st['kind'] == 'flag':
-                if cur[i]['valid'][k] in (0, 1, 9):
-                    src.valid[k] = st['flag']
-                    cur[i]['valid'][k] = st['flag']
-            elif st['kind'] == 'error':
-                if cur[i]['valid'][k] in (1, 9):
-                    src.error[k] *= st['c']
-                    cur[i]['error'][k] = float(src.error[k])
-            else:
-                if cur[i]['valid'][k] in (0, 1, 9):
-                    src.flux[k] *= st['c']
-                    cur[i]['flux'][k] = float(src.flux[k])
+            _apply_edit(src, st)
+            cur[i] = _as_dict(src, sc['pool'][i])
             version[i] += 1
             out.probe('source_edited_in_place')
             shape.append((st['user'], 'edit', st['kind']))
@@ -351,6 +408,8 @@ def lowerings(sc, viol=None):
     for key in ('p1_seed', 'p2_seed', 'p3_c'):
         if sc[key] is not None:
             yield dict(sc, **{key: None})
+    if sc.get('bystanders'):
+        yield dict(sc, bystanders=[])
     if sc.get('mono'):
         yield dict(sc, mono=None)
     if sc['memmap']:
